@@ -4,6 +4,7 @@ import (
 	"fmt"
 	"go/constant"
 	"go/token"
+	"go/types"
 	"sort"
 	"strings"
 
@@ -266,6 +267,22 @@ func checkC15(c *Ctx) {
 			"a path reaches the key derivation without refilling the ephemeral private key from crypto/rand: a fixed or reused ephemeral key makes every tag for a station identical/linkable")
 	}
 
+	// ---- C15.5 results do not alias recycled buffers
+	r.Rule("C15.5", "no encoder returns memory of a buffer it hands back to a sync.Pool (use after release)", 0)
+	nPool := 0
+	var encFns []*ssa.Function
+	for _, f := range c.funcsOfPkgs(dnsPkgs...) {
+		encFns = append(encFns, f)
+	}
+	for _, v := range poolAliasViolations(encFns) {
+		nPool++
+		r.Bad("C15.5", fnName(v.Fn)+": returns memory of a buffer put back into a sync.Pool", v.Ret.Pos(), fnName(v.Fn),
+			"the returned slice "+firstN(pathOf(v.Val), 60)+" aliases "+firstN(v.Buf, 40)+", which this function returns to a sync.Pool: the next encoding overwrites the previous result, so decoding an earlier encoding yields a later value (and encodings held together are identical)")
+	}
+	if nPool == 0 {
+		r.OK("C15.5", "no encoder result aliases a pooled buffer", token.NoPos, fmt.Sprintf("%d function(s) scanned", len(encFns)))
+	}
+
 	// ---- C15.4 validated names
 	r.Rule("C15.4", "names sent by requester/responder are validated names", 3)
 	for _, f := range c.funcsOfPkgs("pkg/registrars/dns-registrar/requester", "pkg/registrars/dns-registrar/responder") {
@@ -333,4 +350,124 @@ func dependsOnBuffer(v ssa.Value, buf ssa.Value) bool {
 		return false
 	}
 	return walk(v, 0)
+}
+
+type poolAlias struct {
+	Fn  *ssa.Function
+	Ret *ssa.Return
+	Val ssa.Value
+	Buf string
+}
+
+// poolAliasViolations: functions that Put (directly or by defer) a value into a sync.Pool and return
+// a slice obtained from a method of that same value (buf.Bytes(), …).
+func poolAliasViolations(fns []*ssa.Function) []poolAlias {
+	var out []poolAlias
+	for _, f := range fns {
+		var pooled []ssa.Value
+		eachInstr(f, func(in ssa.Instruction) {
+			ci, ok := in.(ssa.CallInstruction)
+			if !ok || calleeName(ci.Common()) != "(*sync.Pool).Put" {
+				return
+			}
+			pooled = append(pooled, stripConv(ci.Common().Args[1]))
+		})
+		// deferred closures that Put a captured variable
+		for _, a := range f.AnonFuncs {
+			eachInstr(a, func(in ssa.Instruction) {
+				ci, ok := in.(ssa.CallInstruction)
+				if !ok || calleeName(ci.Common()) != "(*sync.Pool).Put" {
+					return
+				}
+				v := stripConv(ci.Common().Args[1])
+				if u, ok := v.(*ssa.UnOp); ok {
+					if fv, ok := u.X.(*ssa.FreeVar); ok {
+						// find the binding in f
+						eachInstr(f, func(in2 ssa.Instruction) {
+							if mc, ok := in2.(*ssa.MakeClosure); ok && mc.Fn == ssa.Value(a) {
+								for i, x := range a.FreeVars {
+									if x == fv && i < len(mc.Bindings) {
+										pooled = append(pooled, mc.Bindings[i])
+									}
+								}
+							}
+						})
+					}
+				}
+			})
+		}
+		if len(pooled) == 0 {
+			continue
+		}
+		isPooled := func(v ssa.Value) (string, bool) {
+			v = stripConv(v)
+			for _, p := range pooled {
+				if v == p || pathOf(v) == pathOf(p) {
+					return pathOf(p), true
+				}
+				// value loaded from the same local cell
+				if u, ok := v.(*ssa.UnOp); ok && u.X == p {
+					return pathOf(p), true
+				}
+			}
+			return "", false
+		}
+		eachInstr(f, func(in ssa.Instruction) {
+			ret, ok := in.(*ssa.Return)
+			if !ok {
+				return
+			}
+			for _, res := range ret.Results {
+				seen := map[ssa.Value]bool{}
+				var walk func(x ssa.Value, d int) (string, bool)
+				walk = func(x ssa.Value, d int) (string, bool) {
+					if x == nil || d > 12 || seen[x] {
+						return "", false
+					}
+					seen[x] = true
+					switch y := x.(type) {
+					case *ssa.Call:
+						if rv := recvOf(&y.Call); rv != nil {
+							if b, ok := isPooled(rv); ok {
+								if _, isSlice := y.Type().Underlying().(*types.Slice); isSlice {
+									return b, true
+								}
+							}
+						}
+						return "", false // results of other calls are fresh values
+					case *ssa.Slice:
+						return walk(y.X, d+1)
+					case *ssa.Phi:
+						for _, e := range y.Edges {
+							if b, ok := walk(e, d+1); ok {
+								return b, true
+							}
+						}
+					case *ssa.UnOp:
+						return walk(y.X, d+1)
+					case *ssa.Alloc:
+						// result slot / local: look at stores
+						if y.Referrers() != nil {
+							for _, ref := range *y.Referrers() {
+								if st, ok := ref.(*ssa.Store); ok && st.Addr == ssa.Value(y) {
+									if b, ok := walk(st.Val, d+1); ok {
+										return b, true
+									}
+								}
+							}
+						}
+					case *ssa.ChangeType:
+						return walk(y.X, d+1)
+					case *ssa.Convert:
+						return walk(y.X, d+1)
+					}
+					return "", false
+				}
+				if b, ok := walk(res, 0); ok {
+					out = append(out, poolAlias{f, ret, res, b})
+				}
+			}
+		})
+	}
+	return out
 }
